@@ -252,7 +252,11 @@ def parent_main(prop, tier, seed):
         violations.extend(r["violations"])
         inconcl += r["inconclusive_cases"]
         for k, v in r.get("extra", {}).items():
-            if isinstance(v, (int, float)):
+            if k.startswith("min:") and isinstance(v, (int, float)):
+                extra[k] = min(extra.get(k, v), v)
+            elif k.startswith("max:") and isinstance(v, (int, float)):
+                extra[k] = max(extra.get(k, v), v)
+            elif isinstance(v, (int, float)):
                 extra[k] = extra.get(k, 0) + v
             elif isinstance(v, list):
                 extra.setdefault(k, []).extend(v)
